@@ -70,7 +70,10 @@ func VerifC10Write() {
 	conn.badness = time.Duration(b)
 	conn.lastsent = vNow()
 	n := vLen("n", 0, 3)
-	line := vFill(n)
+	line := vStr("linebytes", n) // any bytes (multi-byte characters included): the charge is per byte on the wire
+	for i := 0; i < n; i++ {
+		vAssume(line[i] != '\r' && line[i] != '\n')
+	}
 	err := conn.write(line)
 	vAssert(err == nil, "write-ok")
 	vAssert(len(w.written) == 1 && w.written[0] == line+"\r\n", "wire")
